@@ -82,7 +82,7 @@ func c12Run(sc c12Scenario, prefix []int, sigs []string, ready *grpc.ClientConn)
 	var peerHBTS []time.Time     // recovery time stamps in those answers
 	var assocTS time.Time
 	var probeOK bool
-	horizon := 40 * time.Second
+	horizon := 40*time.Second + time.Duration(sc.Retries)*c12Resp // every retransmission of the largest retry count fits
 	vsched.S = nil
 	u, f := schedUPF(true, 100000*time.Second, ready)
 	defer func() {
@@ -382,7 +382,7 @@ func TestVerifC12(t *testing.T) {
 	res := vNewResult()
 	defer res.write(t)
 	res.Rule = "scripted peer: every reaction pattern (silent / answer / wrong sequence number / answer twice / answer only when the next transmission arrives) to the first T transmissions of agent-originated requests " +
-		"(heartbeats on a CP-initiated association; Association Setup towards a configured peer), max_req_retries in {1,2} (thorough: 3), T = 2(N+1) (quick: N=2 with T=4), peer's own Heartbeat Request at {none, before association, " +
+		"(heartbeats on a CP-initiated association; Association Setup towards a configured peer), max_req_retries in {1,2} (thorough: 3), T = 2(N+1) (quick: N=2 with T=4), and the ends of the range {0, 254, 255} with the peer silent for N, N+1 or N+3 transmissions, peer's own Heartbeat Request at {none, before association, " +
 		"3 s, 6 s, 11 s}; canonical schedule for all, all schedules with <= 1 (quick) / 2 (thorough) deviations for a representative subset; plus the connectivity/feature sub-claim over datapath up/down x " +
 		"UE-IP allocation x end marker x DNN. distinct_nontrivial = executions"
 	res.Assumptions = []string{"virtual clock: spacing is exact under the canonical schedule and only bounded from below under explored schedules", "after its script the peer answers every transmission"}
@@ -442,6 +442,15 @@ func TestVerifC12(t *testing.T) {
 				for _, sc := range []string{"", "S", "SS", "SA", "L", "D", "W"} {
 					scs = append(scs, c12Scenario{Mode: mode, Retries: n, Script: sc, PeerHB: ph})
 				}
+			}
+		}
+	}
+	// the ends of the range of max_req_retries (an 8-bit configuration value): no retransmission at all, and 254 / 255 of them
+	// with the peer silent throughout, answering the very last transmission, or answering only what comes after the last
+	for _, mode := range []string{"hb", "assoc"} {
+		for _, n := range []uint8{0, 254, 255} {
+			for _, sc := range []string{strings.Repeat("S", int(n)), strings.Repeat("S", int(n)+1), strings.Repeat("S", int(n)+3)} {
+				scs = append(scs, c12Scenario{Mode: mode, Retries: n, Script: sc})
 			}
 		}
 	}
